@@ -23,6 +23,7 @@ import z3
 
 BVW = None          # None -> Int back end; integer -> signed bit-vectors of that width
 EAGER_FLOOR = True
+DIV_ZERO = 'raise'     # 'raise': ZeroDivisionError on the zero branch (python scalars); 'poison': numpy array semantics
 
 
 class Abort(BaseException):
@@ -397,6 +398,8 @@ class SNum(Sym):
 
     # generic binary helper
     def _bin(self, o, op, swap=False):
+        if isinstance(o, SPoison):
+            return o
         a, b = (o, self) if swap else (self, o)
         ca = a.c if isinstance(a, SNum) else (_cval(a) if _isconc(a) else None)
         cb = b.c if isinstance(b, SNum) else (_cval(b) if _isconc(b) else None)
@@ -543,8 +546,31 @@ def _concrete_of(x):
     return _cval(x)
 
 
+class SPoison(Sym):
+    """result of a division by zero under numpy semantics (inf/nan): propagates through arithmetic, may only be
+    discarded (np.where); any other use aborts the path as inconclusive"""
+    __slots__ = ()
+
+    def _p(self, *a): return self
+    __add__ = __radd__ = __sub__ = __rsub__ = __mul__ = __rmul__ = __truediv__ = __rtruediv__ = __neg__ = __pow__ = _p
+
+    def _bad(self, *a):
+        raise Abort('value of a division by zero used')
+    __bool__ = __lt__ = __le__ = __gt__ = __ge__ = __eq__ = __ne__ = __float__ = __int__ = __index__ = __abs__ = _bad
+    __hash__ = None
+
+
+POISON = SPoison()
+
+
 def _truediv(a, b):
-    _zero_check(b)
+    if isinstance(a, SPoison) or isinstance(b, SPoison):
+        return POISON
+    if DIV_ZERO == 'poison' and isinstance(b, Sym):
+        if bool(b == 0):
+            return POISON
+    else:
+        _zero_check(b)
     ca, cb = _concrete_of(a), _concrete_of(b)
     if ca is not None and cb is not None:
         return SReal(None, Fr(ca) / Fr(cb))
@@ -770,6 +796,9 @@ def is_concrete(p):
 
 def ite(c, a, b):
     """non-forking conditional"""
+    if isinstance(a, SPoison) or isinstance(b, SPoison):
+        # the poisoned side must be the one the path excludes
+        return a if bool(c) else b
     if isinstance(c, SBool):
         t = z3.simplify(c.t)
         if z3.is_true(t):
